@@ -146,7 +146,10 @@ DEFAULTS = {
     "bases": {"ctx": "top", "shape": "sib", "member": "cells", "override": False, "dinput": False,
               "addvia": "new"},
     "allow": {"ctx": "top", "model_an": False, "space_an": None, "cells_an": None},
+    # several members whose names are string prefixes of each other (files / archive members per name)
+    "names": {"ctx": "top", "pair": "c1", "inputs_on": "second", "refs": "none"},
 }
+NAME_PAIRS = {"c1": ("c1", "c10"), "rate": ("rate", "rate_adj"), "a": ("a", "ab"), "x_": ("x", "x_")}
 COMMON = {"via": "dir", "chain": 1, "warm": False}
 CTX_SIMPLER = {"param2": "param", "base2": "base", "param": "top", "base": "top", "nested": "top"}
 
@@ -486,6 +489,24 @@ def gen(case):
         L.append('S.new_cells("f", formula="lambda x: None if x == 0 else x")')
         if c["cells_an"] is not None:
             L.append("S.f.allow_none = %r" % c["cells_an"])
+    elif kind == "names":
+        if ctx not in ("top", "nested", "param"):
+            raise NotApplicable("ctx")
+        cl, steps, holder, items = _ctx(ctx)
+        L += cl
+        n1, n2 = NAME_PAIRS[c["pair"]]
+        L.append('S.new_cells(%r, formula="lambda x: x + 1")' % n1)
+        L.append('S.new_cells(%r, formula="lambda x: x + 2")' % n2)
+        on = c["inputs_on"]
+        if on in ("first", "both"):
+            late.append("%s.%s[1] = 50" % (holder, n1))
+        if on in ("second", "both"):
+            late.append("%s.%s[1] = 60" % (holder, n2))
+        if c["refs"] == "pickled":      # pickled references with prefix-related names
+            L.append("S.p = [1, 2]")
+            L.append("S.pq = {'k': 3}")
+        elif c["refs"] == "one":
+            L.append("S.pq = {'k': 3}")
     else:
         raise NotApplicable("kind")
     return head + L + late, items
@@ -1044,6 +1065,7 @@ ATTR_ORDER = {
     "formula": ["items", "setvia", "pf"],
     "bases": ["dinput", "override", "addvia", "member", "shape"],
     "allow": ["cells_an", "space_an", "model_an"],
+    "names": ["refs", "inputs_on", "pair"],
 }
 
 
@@ -1171,6 +1193,10 @@ def _other_items(tier):
                                      "dinput": [False, True], "addvia": ["new", "add"]}})
             out.append({"kind": "allow", "fix": dict(cm, ctx=ctx),
                         "free": {"model_an": [False, True], "space_an": ALLOW, "cells_an": ALLOW}})
+        for ctx in ("top", "nested", "param"):
+            out.append({"kind": "names", "fix": dict(cm, ctx=ctx),
+                        "free": {"pair": list(NAME_PAIRS), "inputs_on": ["none", "first", "second", "both"],
+                                 "refs": ["none", "one", "pickled"]}})
     return out
 
 
